@@ -24,6 +24,7 @@ let parse_op (tok : string) : op =
   | 'C', [h] -> OClose (nat_ h)
   | 'F', [h] -> OFeed (nat_ h)
   | 'A', [h] -> OActive (nat_ h)
+  | 'Y', [k; sl] -> OForeign (nat_ k, nat_ sl)
   | 'R', _ -> ORun
   | _ -> failwith ("bad op " ^ tok)
 
@@ -59,6 +60,7 @@ let case (line : string) : string =
          | EStop (h, m) -> add (Printf.sprintf "t%d,%d" (int_of_nat h) (uv_of_mask m))
          | EClose h -> add (Printf.sprintf "z%d" (int_of_nat h))
          | EFeed h -> add (Printf.sprintf "f%d" (int_of_nat h))
+         | EForeign (k, fd, r) -> add (Printf.sprintf "y%d@%d=%s" (int_of_nat k) (int_of_z fd) (if r then "E" else "."))
          | EAct (h, b) -> add (Printf.sprintf "a%d=%d" (int_of_nat h) (if b then 1 else 0))
          | ECb (h, st, ev, _, _, _, _, _, _) ->
              add (Printf.sprintf "c%d,%d,%d" (int_of_nat h) (int_of_z st) (uv_of_mask ev))
